@@ -77,6 +77,36 @@ def h20c_rows(reverse, no_header):
         assert c.header == [0, 1]
 
 
+def h20d_delete_rename(h1, h2, h3, which, new):
+    """--delete removes exactly the named column from the header and from every row; --rename changes the header name
+    only; the other columns keep their values and order"""
+    header = [h1, h2, h3]
+    assume(h1 != h2 and h1 != h3 and h2 != h3)          # duplicate header names: known finding KF-C20-dup-header (H20b)
+    rows = [["p", "q", "r"], ["s", "t", "u"]]
+    c = converter(list(header), [list(r) for r in rows])
+    c._transform_data()
+    victim = header[which]
+    c.delete_columns([victim])
+    keep = [i for i in range(3) if i != which]
+    assert c.header == [header[i] for i in keep]
+    for r, src in zip(c.data, rows):
+        assert list(r.values()) == [src[i] for i in keep]
+        assert list(r.keys()) == [header[i] for i in keep]
+    # renaming one of the remaining columns touches the header only
+    old = header[keep[0]]
+    c.rename_columns({old: new})
+    assert c.header == [new, header[keep[1]]]
+    for r, src in zip(c.data, rows):
+        assert list(r.values()) == [src[i] for i in keep]
+    # deleting a column that does not exist is refused with the documented error
+    assume(new != victim)
+    try:
+        c.delete_columns([victim])
+        assert False
+    except RuntimeError:
+        pass
+
+
 CSV_ALPHABET = [(0, 0xD7FF), (0xE000, 0x10FFFF)]
 STUBS = ["float(str): every symbolic character is forked into its lexical class (sign, point, underscore, exponent letter, the "
          "letters of inf / infinity / nan, ASCII digit, other Unicode decimal digit, white space, other) and the real float() decides "
@@ -98,9 +128,12 @@ HARNESSES = [_cell(n) for n in (0, 1, 2, 3, 4)] + [
     Harness("H20b", h20b_columns, dict(h1=StrDom(1), h2=StrDom(1), h3=StrDom(1), ncols=Cases([1, 2, 3])),
             bounds="1..3 columns whose header names are symbolic one-character strings (equal or not), two data rows",
             stubs=STUBS[1:], outside=OUT),
+    Harness("H20d", h20d_delete_rename, dict(h1=StrDom(1), h2=StrDom(1), h3=StrDom(1), which=Cases([0, 1, 2]), new=StrDom(1)),
+            bounds="3 columns with symbolic (distinct) one-character names, 2 data rows; every column deleted in turn; new name symbolic",
+            stubs=STUBS[1:], outside=OUT),
     Harness("H20c", h20c_rows, dict(reverse=BoolDom(), no_header=BoolDom()),
             bounds="3 rows x 2 columns, --reverse on/off, header / --no-header", stubs=STUBS[1:], outside=OUT),
 ]
-TIER_HARNESSES = {"quick": ["H20a-n0", "H20a-n1", "H20a-n2", "H20a-n3", "H20b", "H20c"],
-                  "thorough": ["H20a-n0", "H20a-n1", "H20a-n2", "H20a-n3", "H20a-n4", "H20b", "H20c"]}
+TIER_HARNESSES = {"quick": ["H20a-n0", "H20a-n1", "H20a-n2", "H20a-n3", "H20b", "H20c", "H20d"],
+                  "thorough": ["H20a-n0", "H20a-n1", "H20a-n2", "H20a-n3", "H20a-n4", "H20b", "H20c", "H20d"]}
 PROPERTY = "C20"
